@@ -777,12 +777,25 @@ func (w *World) keySort(e *Enc, k string) (string, bool) {
 		return "Int", true
 	case k == "$big", k == "$lock", k == "$consumed", k == "$sb", k == "$limit":
 		return "Int", true
+	case k == "$bytes", k == "$rem":
+		return "B", true
+	case k == "$never":
+		return "Int", true
 	}
 	return "", false
 }
 
 // lookupType resolves "bt.Tx", "*bt.Tx", "bscript.Script", "interpreter.thread" to a Go type.
 func (w *World) lookupType(name string) types.Type {
+	if strings.HasPrefix(name, "[]") {
+		if name == "[]byte" || name == "[]uint8" {
+			return types.NewSlice(types.Typ[types.Uint8])
+		}
+		if el := w.lookupType(name[2:]); el != nil {
+			return types.NewSlice(el)
+		}
+		return nil
+	}
 	ptr := false
 	if strings.HasPrefix(name, "*") {
 		ptr = true
